@@ -174,3 +174,75 @@ def saveload_family(rep, n_cases, n_ops, n_points, known_classes=(), nproc=16):
     cov["distinct_nontrivial"] = cov.get("distinct_nontrivial", 0) + len(hashes)
     cov.setdefault("families", {})["c05-saveload"] = tot
     return tot
+
+
+# ------------------------------------------------------------------ sessions the engine model does not cover
+# (names bound by import lines; text the player typed into @input forms): real code only
+
+SESSIONS = [
+    {"name": "imports",
+     "source": ("import math\nfrom bardic.stdlib.economy import Wallet\n"
+                ":: Start\n~ gold = 10\n~ purse = Wallet(5)\nAt the gate.\n+ [Enter] -> Hall\n\n"
+                ":: Hall\nThe hall. {gold} gold.\n+ [Pay the toll] -> Toll\n+ [Count] -> Count\n\n"
+                ":: Toll\n~ gold = math.floor(gold / 3)\n~ purse2 = Wallet(gold)\nThe keeper leaves you {gold} gold, purse {purse2.gold}.\n+ [Back] -> Hall\n\n"
+                ":: Count\nYou have {purse.gold + math.ceil(0.5)}.\n+ [Back] -> Hall\n"),
+     "pre": [("choose", 0)], "post": [("choose", 0), ("choose", 0), ("choose", 1), ("choose", 0)]},
+    {"name": "inputs",
+     "source": (":: Start\n@input name=\"reader_name\" label=\"Name\"\nWho are you?\n+ [Go] -> Road\n\n"
+                ":: Road\nA road.\n+ [Camp] -> Camp\n\n"
+                ":: Camp\nThe fire crackles. {_inputs.get('reader_name', 'Stranger')} sits down.\n+ [Walk] -> Road\n"
+                "+ {_inputs.get('reader_name')} [Sign the guest book] -> Book\n\n"
+                ":: Book\nSigned: {_inputs.get('reader_name', '?')}\n+ [Back] -> Camp\n"),
+     "inputs": {"reader_name": "Kate"}, "pre": [("choose", 0)], "post": [("choose", 0), ("choose", 1), ("choose", 0), ("choose", 0)]},
+    {"name": "state-underscore",
+     "source": (":: Start\n~ _state['_seen'] = 1\nHi.\n+ [Go] -> Room\n\n:: Room\nRoom.\n+ [Look] -> Look\n\n"
+                ":: Look\nSeen {_state.get('_seen', 0)}.\n+ [Back] -> Room\n"),
+     "pre": [("choose", 0)], "post": [("choose", 0), ("choose", 0), ("choose", 0)]},
+]
+
+
+def _obs_session(e, post):
+    out = []
+    for name, i in post:
+        try:
+            with quiet():
+                o = e.choose(i)
+            out.append({"content": o.content, "choices": [c["text"] for c in o.choices], "pid": o.passage_id})
+        except Exception as ex:  # noqa
+            out.append({"raise": type(ex).__name__, "msg": str(ex)[:120]})
+    return out
+
+
+def session_probes(rep):
+    """original session continues vs. save -> JSON -> load into a fresh engine continues: identical observations"""
+    from bardic.runtime.engine import BardEngine
+    n = 0
+    for s in SESSIONS:
+        n += 1
+        try:
+            with quiet():
+                story = corr_play.compile_source(s["source"])
+                a = BardEngine(copy.deepcopy(story))
+                if s.get("inputs"):
+                    a.submit_inputs(dict(s["inputs"]))
+                for name, i in s["pre"]:
+                    a.choose(i)
+                doc = json.loads(json.dumps(a.save_state()))
+                shown = a.current()
+                b = BardEngine(copy.deepcopy(story))
+                b.load_state(doc)
+                shown_b = b.current()
+            first = None
+            if (shown.content, [c["text"] for c in shown.choices]) != (shown_b.content, [c["text"] for c in shown_b.choices]):
+                first = f"right after loading: {shown.content!r} {[c['text'] for c in shown.choices]} vs {shown_b.content!r} {[c['text'] for c in shown_b.choices]}"
+            oa, ob = _obs_session(a, s["post"]), _obs_session(b, s["post"])
+            if first is None and oa != ob:
+                k = next(i for i, (x, y) in enumerate(zip(oa, ob)) if x != y)
+                first = f"continuation call {k}: original {json.dumps(oa[k])[:200]} vs loaded {json.dumps(ob[k])[:200]}"
+            if first:
+                rep.violations.append({"cls": None, "family": "c05-sessions", "what": f"session '{s['name']}' continues differently after save/load — {first}",
+                                       "source": s["source"], "ops": [{"op": n_, "i": i} for n_, i in s["pre"] + s["post"]], "inputs": s.get("inputs")})
+        except Exception as ex:  # noqa
+            rep.violations.append({"cls": None, "family": "c05-sessions", "what": f"session '{s['name']}': {type(ex).__name__}: {str(ex)[:200]}", "source": s["source"]})
+    rep.coverage.setdefault("families", {})["c05-sessions"] = {"cases": n, "what": [s["name"] for s in SESSIONS]}
+    rep.coverage["evaluations"] = rep.coverage.get("evaluations", 0) + n
